@@ -202,7 +202,7 @@ def gen_model_header(spec) -> str:
                '    const dzn::locator& dzn_locator;\n')
     for port in mdl.ports:
         out.append(f'    {_cpp(port["itf"])} {port["name"]};\n')
-    out.append(f'    {comp_name}(const dzn::locator& locator);\n')
+    out.append(f'    {comp_name}(const dzn::locator& dzn_locator_arg);\n')
     out.append('    void check_bindings() const\n    {\n')
     for port in mdl.ports:
         out.append(f'        {port["name"]}.check_bindings();\n')
@@ -220,7 +220,7 @@ def gen_model_header(spec) -> str:
     out.append('} // namespace vtgen\n\n')
 
     out.append(_ns_open(comp_ns))
-    inits = ['dzn_meta()', 'dzn_runtime(locator.get<dzn::runtime>())', 'dzn_locator(locator)']
+    inits = ['dzn_meta()', 'dzn_runtime(dzn_locator_arg.get<dzn::runtime>())', 'dzn_locator(dzn_locator_arg)']
     for port in mdl.ports:
         name = port['name']
         own = f'{{{_cstr(name)}, &{name}, this, &dzn_meta}}'
@@ -228,7 +228,7 @@ def gen_model_header(spec) -> str:
             inits.append(f'{name}({{{own}, {{"", 0, 0, 0}}}})')
         else:
             inits.append(f'{name}({{{{"", 0, 0, 0}}, {own}}})')
-    out.append(f'{comp_name}::{comp_name}(const dzn::locator& locator)\n    : '
+    out.append(f'{comp_name}::{comp_name}(const dzn::locator& dzn_locator_arg)\n    : '
                + '\n    , '.join(inits) + '\n{\n')
     out.append(f'    dzn_meta.type = {_cstr(comp_name)};\n'
                '    vt::g_comp = this;\n')
@@ -418,6 +418,7 @@ void op_world(const std::vector<std::string>& t)
 
     W.reset(); // destroy the previous world
     vt::g_replies.clear();
+    vt::g_reactions.clear();
     vt::g_arbiter = vt::Arbiter();
     vt::g_skipenv.clear();
     vt::g_skipcomp = skipcomp;
@@ -485,6 +486,25 @@ void op_pump()
     vt::emit("pump executed=" + std::to_string(vt::g_executed - before));
 }
 
+void op_react(const std::vector<std::string>& t)
+{
+    // react <port> <in-event> <out-port> <out-event>: the component raises <out-port>.<out-event> (arguments 0)
+    // while it handles <port>.<in-event>
+    if (t.size() != 5) return vt::emit("err usage: react <port> <in-ev> <out-port> <out-ev>");
+    const std::string outport = t[3], outev = t[4];
+    vt::g_reactions[t[1] + " " + t[2]] = [outport, outev]() {
+        std::vector<long> zeros(MAX_FORMALS, 0);
+        CallRes r;
+        try
+        {
+            const int rc = invoke(false, outport, "", false, outev, zeros.data(), r);
+            if (rc != INV_OK) vt::emit("nested err " + std::to_string(rc));
+        }
+        catch (...) { vt::emit("nested exc " + describe_current_exception()); }
+    };
+    vt::emit("react ok");
+}
+
 void op_reply(const std::vector<std::string>& t)
 {
     long value = 0;
@@ -523,7 +543,8 @@ void execute(const std::string& line)
     const std::string& op = t[0];
     if (op == "world") return op_world(t);
     if (op == "reply") return op_reply(t);
-    const bool known = op == "client" || op == "bind" || op == "final" || op == "call" || op == "raise"
+    if (op == "react") return op_react(t);
+    const bool known = op == "client" || op == "bind" || op == "final" || op == "call" || op == "raise" || op == "react"
                        || op == "pump" || op == "ids" || op == "arbiter" || op == "conc";
     if (!known) return vt::emit("err unknown op " + op);
     if (!W || !W->shell) return vt::emit("noworld");
